@@ -59,7 +59,7 @@ theorem safe_jSnap {s : St} {j : Nat} (h : Safe s) (hj : j < s.nJob) (hpc : (s.j
     rcases hed.1 m hm with h' | ⟨_, h'⟩
     · exact hb0.outlt _ h'
     · exact hfb.1 _ _ h'
-  have hroll : ∀ f ∈ (s.job j).edit.rollAdd, f < s.nextFile := fun f hf => hb0.outlt _ (hed.2 f hf)
+  have hroll : ∀ f ∈ (s.job j).edit.rollAdd.map (·.1), f < s.nextFile := fun f hf => hb0.outlt _ (hed.2 f hf)
   -- step back to `ready` (no clause about the number read under the mutex), then acquire + build
   have hbr : JobOk s j { s.job j with pc := .ready } := by
     obtain ⟨h0, hn0, hn0b, hn0c, hn1, hn2, h1, h2, h3, h4, h5, h6, h7, h8, h9, h10, hrec, hnf, hrd, h11, h12, h13, h14⟩ := hb0
@@ -260,7 +260,7 @@ theorem safe_jUnlock {s : St} {j : Nat} (h : Safe s) (hj : j < s.nJob) (hpc : (s
     exact absurd (by cases this; rfl) hkj
 
 theorem safe_jUnpend {s : St} {j : Nat} (pc' : Pc) (h : Safe s) (hj : j < s.nJob) (hpc : (s.job j).pc = .cUnlocked)
-    (hpc' : pc' = .done ∨ (pc' = .closeOwn ∧ (s.job j).kind = .compact)) : Safe (jUnpend s j pc') := by
+    (hpc' : pc' = .done ∨ pc' = .doStart ∨ (pc' = .closeOwn ∧ (s.job j).kind = .compact)) : Safe (jUnpend s j pc') := by
   unfold jUnpend
   have hb0 := h.jobs j hj
   have h1 : Safe (setPc s j pc') := by
@@ -269,13 +269,13 @@ theorem safe_jUnpend {s : St} {j : Nat} (pc' : Pc) (h : Safe s) (hj : j < s.nJob
     generalize s.job j = b at *
     obtain ⟨kind, pc, payload, snap, inputs, trivial, todoIn, out, edit, csnap, newVer, prev, prevZero, nfRead, dlist, live, todoDel⟩ := b
     simp only at hpc hpc'; subst hpc
-    rcases hpc' with rfl | ⟨rfl, rfl⟩ <;> jobok_at
+    rcases hpc' with rfl | rfl | ⟨rfl, rfl⟩ <;> jobok_at
   apply safe_unpend h1
   intro k hk hp f hf
   simp only [setPc, St.setJob, upd] at hk hp hf
   by_cases hkj : k = j
   · subst hkj; simp only [if_true] at hp
-    rcases hpc' with rfl | ⟨rfl, _⟩ <;> simp [outPending] at hp
+    rcases hpc' with rfl | rfl | ⟨rfl, _⟩ <;> simp [outPending] at hp
   · simp only [hkj, if_false] at hp hf
     exact h.outs_distinct k j hk hj hkj f hf
 
